@@ -298,7 +298,21 @@ def m_toX(c, A, ctx):
     c.choose_trigonal_lattice("X")
 
 
-MUTATORS = {"toH": m_toH, "toR": m_toR, "normH": m_normH, "toX": m_toX}
+def _flip(c, n):
+    # n setting switches in immediate succession (no other call in between)
+    for _ in range(n):
+        c.choose_trigonal_lattice("R" if c.space_group.choice == "H" else "H")
+
+
+def m_flip2(c, A, ctx):
+    _flip(c, 2)
+
+
+def m_flip3(c, A, ctx):
+    _flip(c, 3)
+
+
+MUTATORS = {"toH": m_toH, "toR": m_toR, "normH": m_normH, "toX": m_toX, "flip2": m_flip2, "flip3": m_flip3}
 
 
 # ------------------------------------------------ operations meant to raise
